@@ -17,11 +17,11 @@ for p in props/C*/; do
   id=$(basename "$p")
   if [ -x "$p/pre.sh" ]; then "$p/pre.sh" || true; fi
 done
-( cd coq && timeout 7000 make -j16 )
+( cd coq && timeout 7000 make -j16 -k ) || echo 'setup: some Coq targets failed (each check reports its own)'
 for f in coq/Extract/Extract*.v; do
   id=$(basename "$f" .v | sed 's/^Extract//')
-  lib/build_model.sh "$id"
+  lib/build_model.sh "$id" || echo "setup: model $id did not build"
 done
 [ -f harness/Cargo.lock ] || cp /repo/Cargo.lock harness/Cargo.lock
-( cd harness && RUSTFLAGS="--cfg arkworks_rs_algebra_verif" cargo build --offline --bins )
+( cd harness && RUSTFLAGS="--cfg arkworks_rs_algebra_verif" cargo build --offline --bins --keep-going ) || echo "setup: some harness bins failed"
 echo setup-ok
